@@ -858,9 +858,21 @@ def drawn_start_nodes_layout(ctx: Ctx):
         if not mi.relpath.startswith("rl4co/"):
             continue
         for fnode in [n for n in ast.walk(mi.tree) if isinstance(n, ast.FunctionDef) and "select_start_node" in n.name]:
-            for r in [x for x in ast.walk(fnode) if isinstance(x, ast.Return) and x.value is not None]:
+            rets_ = []
+            for blk in ast.walk(fnode):
+                for body in (getattr(blk, "body", None), getattr(blk, "orelse", None)):
+                    if not isinstance(body, list):
+                        continue
+                    for i_, st in enumerate(body):
+                        if isinstance(st, ast.Return) and st.value is not None:
+                            v_ = st.value
+                            # `tmp = <expr>; return tmp`
+                            if isinstance(v_, ast.Name) and i_ > 0 and isinstance(body[i_ - 1], ast.Assign) and any(isinstance(t, ast.Name) and t.id == v_.id for t in body[i_ - 1].targets):
+                                v_ = body[i_ - 1].value
+                            rets_.append((st, v_))
+            for r, rv in rets_:
                 # method chain of the returned expression, innermost first
-                chain, e = [], r.value
+                chain, e = [], rv
                 while isinstance(e, ast.Call) and isinstance(e.func, ast.Attribute):
                     chain.append((e.func.attr, e))
                     e = e.func.value
@@ -873,10 +885,10 @@ def drawn_start_nodes_layout(ctx: Ctx):
                 if not flat_i:
                     continue
                 n_sites += 1
-                swapped = any(c in ("transpose", "t", "permute", "T") for c in names[:flat_i[-1]]) or any(isinstance(x, ast.Attribute) and x.attr in ("T", "mT") for x in ast.walk(r.value))
+                swapped = any(c in ("transpose", "t", "permute", "T") for c in names[:flat_i[-1]]) or any(isinstance(x, ast.Attribute) and x.attr in ("T", "mT") for x in ast.walk(rv))
                 ctx.repo.note(mi)
                 ctx.ob("C12.e", f"{fnode.name}:drawn-starts-in-start-major-order", swapped, f"{mi.relpath}:{r.lineno}",
-                       f"{ast.unparse(r.value)[:90]}: [B, k] draw " + ("transposed before it is flattened: rows run (start, instance)" if swapped else
+                       f"{ast.unparse(rv)[:90]}: [B, k] draw " + ("transposed before it is flattened: rows run (start, instance)" if swapped else
                        "flattened as it is: rows run (instance, start), but the replicated state runs (start, instance) -- a row gets a start node drawn from another instance's mask"),
                        construct=f"{mi.relpath}:{fnode.name}:flatten-order")
     if n_sites < 1:
